@@ -1,7 +1,7 @@
 (** * C11 proofs: a Minimization object carries nothing from one call into the next
     (every member that outlives a call is assigned before it is read; nfunc is reset) *)
 From Coq Require Import ZArith List Bool Lia Arith.
-From LP Require Import Num C11_Model.
+From LP Require Import Num OrdLaws C11_Model.
 Import ListNotations.
 
 Section Hist.
@@ -63,3 +63,104 @@ Example ex_obj_run : exists o1 o2,
   obj_run ZOps (mkObj 4990 7 7 0 [1; 2] [[5]]) 1 [Call1 fq [20; -31] 16; Call1 fq [20; -31] 16] = [Ok o1; Ok o2] /\
   o1 = o2 /\ o_nfunc o2 = 9.
 Proof. eexists; eexists. vm_compute. repeat split; reflexivity. Qed.
+
+(** * by-reference arguments that are public members of Minimization objects (restart idioms) *)
+Section Members.
+Context {T : Type} (Ops : NumOps T).
+
+(** a request whose arguments are members of objects (the called one or others) gives the answer a fresh object gives on the
+    values those members hold when the call starts *)
+Lemma objs_call_fresh objs ftols ob r :
+  rmap snd (objs_call Ops objs ftols ob r) = fresh_call Ops (nth ob ftols (n0 Ops)) (req_call Ops objs r).
+Proof.
+  unfold objs_call. rewrite <- (obj_call_fresh Ops (obj_at Ops objs ob) (nth ob ftols (n0 Ops)) (req_call Ops objs r)).
+  destruct (obj_call _ _ _ _) as [[ob' o]| | |]; reflexivity.
+Qed.
+
+Lemma obj_at_set_obj : forall objs k x, (k < length objs)%nat -> obj_at Ops (set_obj objs k x) k = x.
+Proof.
+  unfold obj_at. induction objs as [|a rest IH]; intros k x Hk; [cbn in Hk; lia|].
+  destruct k; cbn; [reflexivity|]. apply IH. cbn in Hk. lia.
+Qed.
+Lemma obj_at_set_obj_other : forall objs k j x, k <> j -> obj_at Ops (set_obj objs k x) j = obj_at Ops objs j.
+Proof.
+  unfold obj_at. induction objs as [|a rest IH]; intros k j x Hkj; [reflexivity|].
+  destruct k, j; cbn; try reflexivity; [congruence|]. apply IH. congruence.
+Qed.
+
+Definition call_f (c : @nmcall T) : list T -> T := match c with CallG f _ => f | CallD f _ _ => f | Call1 f _ _ => f end.
+
+(** after a call that returns (any overload) the members are what the call reported *)
+Lemma obj_call_state ob ftol c ob' o : obj_call Ops ob ftol c = Ok (ob', o) ->
+  ob_simplex ob' = o_simplex o /\ ob_y ob' = o_y o /\ ob_fmin ob' = o_fmin o /\ fresh_call Ops ftol c = Ok o.
+Proof.
+  intros H. pose proof (obj_call_fresh Ops ob ftol c) as HF. rewrite H in HF. change (rmap snd (Ok (ob', o))) with (Ok o) in HF.
+  assert (forall f pp, obj_minimize_general Ops f ob ftol pp = Ok (ob', o) -> ob_simplex ob' = o_simplex o /\ ob_y ob' = o_y o /\ ob_fmin ob' = o_fmin o) as G.
+  { intros f pp Hg. apply obj_minimize_general_state in Hg. tauto. }
+  destruct c as [f pp|f st ds|f st d]; cbn [obj_call] in H.
+  - destruct (G _ _ H) as (A & B & C). auto.
+  - unfold obj_minimize_deltas in H. destruct (negb _); [discriminate|]. destruct (G _ _ H) as (A & B & C). auto.
+  - unfold obj_minimize_delta, obj_minimize_deltas in H. destruct (negb _); [discriminate|]. destruct (G _ _ H) as (A & B & C). auto.
+Qed.
+End Members.
+
+Section Restart.
+Context {T : Type} (Ops : NumOps T) (OL : OrdLaws.OrdLaws Ops).
+
+(** the clauses of C11_minimize_general_spec that a restart uses, for all three overloads *)
+Lemma fresh_call_spec ftol c o : fresh_call Ops ftol c = Ok o ->
+  o_fmin o = call_f c (nth 0 (o_simplex o) []) /\ o_y o = map (call_f c) (o_simplex o) /\
+  match c with
+  | CallG f pp => forall k, (k < length pp)%nat -> le Ops (o_fmin o) (f (nth k pp []))
+  | CallD f st _ => le Ops (o_fmin o) (f st)
+  | Call1 f st _ => le Ops (o_fmin o) (f st)
+  end.
+Proof.
+  assert (forall f st ds, minimize_deltas Ops f ftol st ds = Ok o ->
+            o_fmin o = f (nth 0 (o_simplex o) []) /\ o_y o = map f (o_simplex o) /\ le Ops (o_fmin o) (f st)) as D.
+  { intros f st ds H. unfold minimize_deltas in H. destruct (negb _); [discriminate|].
+    apply (minimize_general_spec Ops OL) in H. destruct H as (A1 & A2 & A3 & A4 & A5 & A6 & A7).
+    split; [now rewrite <- A4|]. split; [exact A1|].
+    specialize (A7 0%nat). cbn in A7. apply A7. lia. }
+  destruct c as [f pp|f st ds|f st d]; cbn [fresh_call call_f]; intros H.
+  - apply (minimize_general_spec Ops OL) in H. destruct H as (A1 & A2 & A3 & A4 & A5 & A6 & A7).
+    split; [now rewrite <- A4|]. split; [exact A1|exact A7].
+  - apply D in H. exact H.
+  - unfold minimize_delta in H. apply D in H. exact H.
+Qed.
+
+(** restart idioms never end worse than the call they restart from: after any call on object [ob] that returned o1,
+    (a) minimize(m.current_simplex, f)  [the member itself is the argument]  and
+    (b) minimize(m.current_simplex[0], deltas, f) / minimize(m.current_simplex[0], delta, f)  [the reported point, by reference]
+    with the same objective return a value <= o1's fmin, whatever tolerance, displacements and other objects are involved *)
+Theorem objs_restart_not_worse objs ftols ob r1 objs1 o1 r2 ftols2 objs2 o2 : (ob < length objs)%nat ->
+  objs_call Ops objs ftols ob r1 = Ok (objs1, o1) ->
+  let f := call_f (req_call Ops objs r1) in
+  (r2 = ReqGS f ob \/ (exists ds, r2 = ReqD f (VRow ob 0) ds) \/ (exists d, r2 = Req1 f (VRow ob 0) d)) ->
+  objs_call Ops objs1 ftols2 ob r2 = Ok (objs2, o2) ->
+  le Ops (o_fmin o2) (o_fmin o1).
+Proof.
+  intros Hob H1 f Hr H2.
+  unfold objs_call in H1. destruct (obj_call Ops (obj_at Ops objs ob) _ _) as [[ob1 oo1]| | |] eqn:E1; try discriminate.
+  cbn in H1. injection H1 as <- <-.
+  apply obj_call_state in E1. destruct E1 as (S1 & _ & _ & F1).
+  apply (fresh_call_spec _ _ _) in F1. destruct F1 as (V1 & _ & _). fold f in V1.
+  pose proof (objs_call_fresh Ops (set_obj objs ob ob1) ftols2 ob r2) as HF. rewrite H2 in HF. change (rmap snd (Ok (objs2, o2))) with (Ok o2) in HF. symmetry in HF.
+  apply fresh_call_spec in HF. destruct HF as (_ & _ & HF).
+  destruct Hr as [->|[[ds ->]|[d ->]]]; cbn [req_call vsrc_val] in HF; rewrite (obj_at_set_obj Ops objs ob ob1 Hob), S1 in HF.
+  - rewrite V1. apply (HF 0%nat).
+    (* the restarted call returned, so its simplex is not empty *)
+    pose proof (objs_call_fresh Ops (set_obj objs ob ob1) ftols2 ob (ReqGS f ob)) as HG. rewrite H2 in HG. change (rmap snd (Ok (objs2, o2))) with (Ok o2) in HG. cbn [req_call] in HG.
+    rewrite (obj_at_set_obj Ops objs ob ob1 Hob), S1 in HG. unfold minimize_general in HG.
+    destruct (o_simplex oo1); [discriminate|cbn; lia].
+  - rewrite V1. exact HF.
+  - rewrite V1. exact HF.
+Qed.
+End Restart.
+
+(** non-vacuity: a call, then a restart from the object's own simplex with a tighter tolerance on a second object's behalf *)
+Example ex_restart : exists objs1 o1 objs2 o2,
+  let fq := fun p : list Z => nth 0 p 0 * nth 0 p 0 + 3 * (nth 1 p 0 - 3) * (nth 1 p 0 - 3) in
+  objs_call ZOps [obj_fresh ZOps] [1] 0 (Req1 fq (VGiven [20; -31]) 16) = Ok (objs1, o1) /\
+  objs_call ZOps objs1 [1] 0 (ReqGS fq 0) = Ok (objs2, o2) /\ o_fmin o2 <= o_fmin o1.
+Proof. do 4 eexists. vm_compute. repeat split; try reflexivity. discriminate. Qed.
